@@ -899,6 +899,126 @@ def lsrouter_classify(line, res):
     return "n%d/%s" % (k, "vcdiffer" if len(vcs) > 1 else "vcsame")
 
 
+
+# ---------------- kind uphistory: several entries, ONE server / server name, a sequence of exchanges
+UPH_SRV = {"tls": ["tls", "tls+pipeline", "TLS"], "https": ["https", "Https"], "quic": ["quic", "doq", "DoQ"], "h3": ["h3", "H3"]}
+
+
+def uphistory_gen(rng, tier):
+    out = []
+    n = [0]
+
+    def add(srv, peer, entries, steps, split=0):
+        parts = ["h%d n=%d split=%d srv=%s name=h%d.sess.c17.test peer=%s steps=%s"
+                 % (n[0], len(entries), split, srv, n[0], peer, ",".join(str(x) for x in steps))]
+        for i, (ca, ins) in enumerate(entries):
+            parts.append("st%d=%s ca%d=%d ins%d=%d" % (i, rng.choice(UPH_SRV[srv]), i, ca, i, ins))
+        out.append(" ".join(parts))
+        n[0] += 1
+
+    for srv in ("tls", "https", "quic", "h3"):
+        # entry 0 trusts the server's certificate, entry 1 (same server name) does not
+        for (peer, trusting, other) in (("valid", (1, 0), (0, 0)), ("sysroot", (0, 0), (1, 0)),
+                                        ("selfsigned", (rng.randrange(2), 1), (rng.randrange(2), 0))):
+            for steps in ([1, 0, 1, 1], [0, 1, 0, 1]):
+                if peer == "selfsigned" and steps[0] == 0 and rng.random() < 0.5:
+                    continue
+                add(srv, peer, [trusting, other], steps, split=rng.choice((0, 0, 1)))
+        add(srv, "valid", [(1, 0), (0, 0), (1, 0)], [1, 0, 2, 1, 1], split=rng.choice((0, 2)))
+    for _ in range(budget(tier, 24, 300)):
+        srv = rng.choice(("tls", "tls", "https", "quic", "h3"))
+        k = rng.randint(2, 3)
+        es = [(rng.randrange(2), 1 if rng.random() < 0.2 else 0) for _ in range(k)]
+        steps = [rng.randrange(k) for _ in range(rng.randint(3, 6))]
+        add(srv, rng.choice(["valid", "sysroot", "valid", "sysroot", "selfsigned", "unknownca", "expired", "wrongname"]),
+            es, steps, split=rng.randrange(1, k) if rng.random() < 0.3 else 0)
+    return out
+
+
+def uphistory_oracle(line, res):
+    f = gens.fields(line)
+    r = gens.fields(res)
+    if r.get("start") != "ok":
+        return "a router with %s valid upstream entries did not start" % f["n"]
+    steps = [int(x) for x in f["steps"].split(",")]
+    hist = []
+    for si, i in enumerate(steps):
+        ca, ins, peer = f["ca%d" % i], f["ins%d" % i], f["peer"]
+        cert_ok = ins == "1" or (ca == "1" and peer == "valid") or (ca == "0" and peer == "sysroot")
+        got = r.get("t%d" % si)
+        me = "#%d %s://(ca=%s insecure_skip_verify=%s)" % (i, f["st%d" % i], ca, ins)
+        if got == "ok" and not cert_ok:
+            return ("step %d: entry %s exchanged on a new connection with the server (certificate: %s) it must refuse — after "
+                    "the exchanges [%s] of the entries of the same server name; the verdict of an entry does not depend "
+                    "on what other entries did before" % (si, me, peer, "; ".join(hist)))
+        if got != "ok" and cert_ok:
+            return ("step %d: entry %s refused the server (certificate: %s) it accepts alone — after [%s]"
+                    % (si, me, peer, "; ".join(hist)))
+        hist.append("%s: %s" % (me, got))
+    return None
+
+
+def uphistory_classify(line, res):
+    f = gens.fields(line)
+    return "%s/%s/%s" % (f["srv"], f["peer"], "split" if f.get("split", "0") != "0" else "one")
+
+
+# ---------------- kind resolve: dial targets that are NAMES are resolved for every new connection
+def resolve_gen(rng, tier):
+    out = []
+    n = [0]
+
+    def add(st, base, http, mode, scen):
+        name = "n%d.c17r.test" % n[0]
+        if mode == "url":
+            auth, da, san = name + ":" + PORT, "", name
+        else:
+            auth, da, san = "fixed.c17r.test:" + PORT, name + ":" + PORT, "fixed.c17r.test"
+        url = (st + "://" if st is not None else "") + auth + ("/dns-query" if http else "")
+        tls = base in ("tls", "https", "quic", "h3")
+        out.append("n%d url=%s da=%s srv=%s scen=%s name=%s san=%s st=%s mode=%s"
+                   % (n[0], hs(url), hs(da), base, scen, name, san if tls else "-", st if st is not None else "-", mode))
+        n[0] += 1
+
+    for (st, base, dport, stream, tls, http) in SCHEMES:
+        modes = ["url", "da"]
+        rng.shuffle(modes)
+        for mode in modes:
+            add(st, base, http, mode, "move")
+        add(st, base, http, modes[0], "late")
+        add(st, base, http, modes[1], "multi")
+        if tier == "thorough":
+            add(st, base, http, modes[1], "late")
+            add(st, base, http, modes[0], "multi")
+    return out
+
+
+def resolve_oracle(line, res):
+    f = gens.fields(line)
+    r = gens.fields(res)
+    what = "upstream %s whose %s is the name %s" % (f["st"] + "://" if f["st"] != "-" else "without scheme",
+                                                  "url host" if f["mode"] == "url" else "dial_addr", f["name"])
+    if r.get("new") != "ok":
+        return "%s could not be constructed%s" % (what, " while the name did not resolve yet (it is resolved when a "
+                                                  "connection is dialled, not at construction)" if f["scen"] == "late" else "")
+    if f["scen"] == "multi":
+        if r.get("x1") != "ok" or r.get("at1") != "in":
+            return "%s (two addresses, a server on each): the exchange reached none of them" % what
+        return None
+    if r.get("x1") != "ok" or r.get("at1") != "a":
+        return "%s: the name is 127.0.0.1 but the exchange arrived at '%s' (x=%s)" % (what, r.get("at1"), r.get("x1"))
+    if f["scen"] == "move" and (r.get("x2") != "ok" or r.get("at2") != "b"):
+        return ("%s: the name moved to 127.0.0.2 and the old connection ended, but the NEW connection went to '%s' (x=%s); "
+                "every connection is dialled to the configured host, i.e. to the address the name has when it is dialled"
+                % (what, r.get("at2"), r.get("x2")))
+    return None
+
+
+def resolve_classify(line, res):
+    f = gens.fields(line)
+    return "%s/%s/%s" % (f["srv"], f["mode"], f["scen"])
+
+
 PROPS["C17"] = dict(
     kinds=[
         dict(name="addr", gen=addr_gen, oracle=addr_oracle, classify=addr_classify,
@@ -917,6 +1037,10 @@ PROPS["C17"] = dict(
         dict(name="uprouter", gen=uprouter_gen, oracle=uprouter_oracle, classify=uprouter_classify, compare=uprouter_compare,
              nontrivial=lambda l, r: True, timeout=900),
         dict(name="lsrouter", gen=lsrouter_gen, oracle=lsrouter_oracle, classify=lsrouter_classify,
+             nontrivial=lambda l, r: True, timeout=900),
+        dict(name="uphistory", gen=uphistory_gen, oracle=uphistory_oracle, classify=uphistory_classify,
+             nontrivial=lambda l, r: True, timeout=900),
+        dict(name="resolve", gen=resolve_gen, oracle=resolve_oracle, classify=resolve_classify,
              nontrivial=lambda l, r: True, timeout=900),
     ],
     rule="addr: every helper of internal/upstream/utils.go on grammar strings (IPv4 / domain / IPv6 of 20 catalogue "
@@ -951,9 +1075,18 @@ PROPS["C17"] = dict(
          "certificate demanded or not): per-entry accept/refuse and arrival at the target against upr_case "
          "(= the entry alone, C17_upstreams_independent_case); lsrouter: 2..3 TLS listeners {tls,https,quic} with the "
          "same cert/key (and ca) files that differ in verify_client_cert / ca, each probed with a client certificate "
-         "kind or none, against lsr_case; distinct = distinct case line, all non-trivial",
+         "kind or none, against lsr_case; uphistory: 2..3 entries of one router / two routers with the SAME server name "
+         "and different trust (ca / system roots / insecure_skip_verify) exchange in a given order (3..6 steps) with "
+         "ONE session-ticket-issuing fake server {tls,https,quic,h3} that serves one query per connection: every "
+         "step's verdict against upr_history_case (no resumption state = the entry alone); resolve: the process "
+         "resolves names through the harness' own DNS server (net.DefaultResolver, verified at start-up): 13 scheme "
+         "spellings x name as URL host / as dial_addr x {the name moves 127.0.0.1 -> 127.0.0.2 between two connections "
+         "and the first server goes away, the name does not resolve at construction but later, the name has two "
+         "addresses}: where each exchange arrives against rs_case (resolution per connection); distinct = distinct "
+         "case line, all non-trivial",
     assumptions=["the process's system trust store is the harness' own (SSL_CERT_FILE / SSL_CERT_DIR set by build/implrun "
                  "before crypto/x509 first loads it; verified at start-up, a failure is a harness error, not an alarm)",
+                 "names under c17r.test / c17.test are not known to any resolver but the harness' own",
                  "every address of 127.0.0.0/8 is local (127.0.0.2, .3, .17, .18 are used as distinct peers)",
                  "loopback (127.0.0.1 and ::1) networking, abstract unix sockets; 'localhost' resolves to loopback",
                  "x509 chain building / name matching / validity are oracles of the model (crypto/x509 is trusted)",
